@@ -52,8 +52,10 @@ PROPS = {
             {'func': 'ZODB.FileStorage.FileStorage:FileStorage<queries-after-histories>',
              'bound': '2 fixed + 6 (thorough: 40) random histories of <=5 transactions over 5 oids (seed VERIF_SEED); '
                       'after every commit: load/getTid/loadBefore at every tid boundary/loadSerial/history/'
-                      'iterator/lastTransaction against the model; after abort; after close+reopen with and '
-                      'without index file; tid monotonicity with clock behind the data'},
+                      'iterator/lastTransaction against the model; iterator(start, stop) for every pair of tid '
+                      'boundaries, also with a transaction voted but unfinished and through a read-only open of a '
+                      'copy with a torn tail; after abort; after close+reopen with and without index file; tid '
+                      'monotonicity with clock behind the data'},
         ],
         'text': 'FileStorage load/loadSerial/loadBefore/getTid/_loadBack_impl are proved, for all oids, tids and '
                 'file contents satisfying the representation invariant, to return exactly the revision the '
@@ -156,7 +158,7 @@ PROPS['C16'] = {
          'bound': '{mapping,file} base x {mapping,file} changes x 2 base histories x 3 demo histories (<=3 commits): '
                   'loadBefore at every boundary, loadSerial, getTid, lastTransaction against the changes-over-base '
                   'model; stale writer; 20 id allocations with a store in flight; base dump before/after; refused '
-                  'tpc_begin'},
+                  'tpc_begin; a base written with the clock one day ahead (tid order across the layers)'},
     ],
     'text': 'DemoStorage is proved once against the IStorage interface contract of BOTH layers (abstract revision '
             'sets, so for every combination of storage kinds): loadBefore returns the greatest revision below the '
@@ -165,9 +167,10 @@ PROPS['C16'] = {
             'resolver (oid, merged serial, caller serial, data), new_oid returns an id with no revision in either '
             'layer and not issued before, tpc_begin/abort/finish keep LOCKINV and involve only the changes layer; '
             'every path is shown to call only read-only methods on the base.',
-    'note': 'Assumes A-ISTORAGE for the two layers and LAYER_ORDER (base tids < changes tids): the code does not '
-            'enforce LAYER_ORDER - open finding F9 (printed as KNOWN-FINDING). Termination of new_oid probing, '
-            'undo/pack/blob delegation and push/pop: bounded or not covered.',
+    'note': 'Assumes A-ISTORAGE for the two layers (incl. that a tid given to tpc_begin becomes the tid of the '
+            'transaction) and A-TIMESTAMP for utils.newTid. LAYER_ORDER (base tids < changes tids) is assumed of the '
+            'state and proved to be ESTABLISHED for every new transaction by tpc_begin (finding F9, fixed). Termination '
+            'of new_oid probing, undo/pack/blob delegation and push/pop: bounded or not covered.',
     'design_ref': 'DESIGN.md section 5 C16',
 }
 
@@ -494,8 +497,8 @@ PROPS['C11'] = {
             'without savepoints; tpc_vote ghostifies resolved / conflicting objects. BOUNDED only: _commit/_store_objects/'
             'ObjectWriter (which objects are stored), savepoints (C12), cacheGC/open/pool reuse - by the program harness.',
     'note': 'Assumes A-PERSISTENT, A-PICKLECACHE (C code) and CONNINV (representation invariant of the connection, not '
-            'proved to be preserved by _store_objects). F20 fixed; F21 (new object that never reached the cache keeps oid '
-            'and jar after a failed commit) open, printed as KNOWN-FINDING.',
+            'proved to be preserved by _store_objects). F20 (add with refused join) and F21 (new object that never '
+            'reached the cache kept oid and jar after a failed commit) were produced by this check and are fixed.',
     'design_ref': 'DESIGN.md section 5 C11',
 }
 
